@@ -53,6 +53,8 @@ def ref_tasks(keys, desc, per_unit=True):
     for label, key in keys.items():
         d = desc[label]
         for q in d["qty"]:
+            if label.startswith("fix") and q not in d.get("own", []):
+                continue        # the fixture world also contains the catalogue (already covered by its own world)
             if d["has_ref"][q]:
                 for u in d["units"][q]:
                     out.append((key, q, u))
